@@ -169,6 +169,11 @@ def cases(draw, kind, precision, tdtypes, big=False):
         n = draw(st.integers(8, 40))
         s = draw(st.sampled_from([1025, 4096, 4097, 5000, 8193])) + draw(st.integers(0, 2))
         W = 1 if kind in ('tbuild', 'ttest') else draw(st.integers(1, 2))
+    elif big == 'tall':
+        # thousands of traces per batch with few classes: more than 1024 / 4096 traces of one class in a single batch
+        n = draw(st.sampled_from([2100, 2500, 4100, 6000])) + draw(st.integers(0, 40))
+        s = draw(st.integers(1, 3))
+        W = 1
     elif big:
         n = draw(st.integers(150, 400))
         s = draw(st.sampled_from([16, 32, 64]))
@@ -178,6 +183,8 @@ def cases(draw, kind, precision, tdtypes, big=False):
         s = draw(st.integers(1, 6))
         W = 1 if kind in ('tbuild', 'ttest') else draw(st.integers(1, 3))
     k = draw(st.sampled_from([2, 3, 8, 9, 9, 10, 64] if kind in ('anova', 'nicv', 'snr') else [2, 3, 8, 9, 10]))
+    if big == 'tall':
+        k = draw(st.sampled_from([2, 2, 3]))
     parts = CLASS_LISTS[k]
     und = draw(st.booleans())
     pool = list(parts) + ([max(parts) + 1, max(parts) + 7] if und else [])
@@ -200,6 +207,11 @@ def cases(draw, kind, precision, tdtypes, big=False):
             if precision == 'float32' and off > 1e3:
                 off = 1e3
             tr = (g.normal(size=(n, s)) + off + (lab[:, :1] % 5) * 0.5).astype(tdt)
+    if draw(st.integers(0, 3)) == 0:
+        # samples that are exactly zero for every trace (zero padding after an alignment, a masked area), the first sample included
+        tr[:, 0] = 0
+        if s > 2 and draw(st.booleans()):
+            tr[:, s - 1] = 0
     b = draw(st.integers(1, 2 if big else 6))
     b = min(b, n)
     cuts = sorted(g.choice(np.arange(1, n), size=b - 1, replace=False).tolist()) if b > 1 else []
@@ -254,6 +266,9 @@ def units(tier):
     for precision, tdts in [('float64', ['int16', 'float32']), ('float32', ['uint8', 'float32'])]:
         us.append({'name': 'big-arrays-%s' % precision, 'fn': 'unit_generated', 'threads': 16, 'cost': 4,
                    'kwargs': {'kinds': ['tbuild', 'snr', 'mia', 'ttest'], 'precision': precision, 'tdtypes': tdts, 'n': 10 if q else 100, 'big': True}})
+    for precision, tdts in [('float64', ['int16', 'float32']), ('float32', ['uint8', 'float32'])]:
+        us.append({'name': 'tall-batches-%s' % precision, 'fn': 'unit_generated', 'threads': 16, 'cost': 2,
+                   'kwargs': {'kinds': ['tbuild', 'snr'], 'precision': precision, 'tdtypes': tdts, 'n': 6 if q else 60, 'big': 'tall'}})
     for precision, tdts in [('float64', ['int16', 'float32']), ('float32', ['uint8', 'float32'])]:
         us.append({'name': 'long-traces-%s' % precision, 'fn': 'unit_generated', 'threads': 16, 'cost': 2,
                    'kwargs': {'kinds': ['anova', 'snr', 'mia', 'ttest'], 'precision': precision, 'tdtypes': tdts, 'n': 6 if q else 60, 'big': 'long'}})
